@@ -346,7 +346,8 @@ func checkC16(r *Run) int {
 		f2 := c15File([]int{0, 1, 2, 3, 4}, [2]bool{}, []int{0, 1, 2, 3})
 		f2.Pkg, f2.Name = "perm", "perm.proto"
 		fd2 := f2.Descriptor()
-		c2 := &dsl.Config{Types: []string{"Perm", "Twin"}, Exclude: []string{"Perm.Hidden"}, Computed: []string{"Perm.Scal", "Leaf.I"}, Required: []string{"Twin.Who"}, Sensitive: []string{"Leaf.S"},
+		// (lower_snake proto names among the list elements: fields are addressed by their proto name)
+		c2 := &dsl.Config{Types: []string{"Perm", "Twin"}, Exclude: []string{"Perm.Hidden", "Perm.a_flag"}, Computed: []string{"Perm.Scal", "Leaf.I", "Perm.a_num"}, Required: []string{"Twin.Who"}, Sensitive: []string{"Leaf.S", "Perm.z_str", "Perm.z_leaf.S"},
 			DefaultPkg: "example.com/acme/structs", TargetPkg: "tfschema", Sort: true, DurationCustomType: "Duration"}
 		var params []string
 		for i, o := range opts {
